@@ -393,8 +393,13 @@ def run_one(argv):
         seen_new.add(sig)
         small = shrink(rec["case"], lambda r, s=sig: bool(r["impl"].get("oracle")) and r["impl"]["oracle"][0].get("sig") == s, env)
         r2 = evaluate([small], env)[0]
+        rerun_ok = bool(r2["impl"].get("oracle")) and r2["impl"]["oracle"][0].get("sig") == sig
+        if not rerun_ok:
+            # schedule- or timing-dependent failure: the observation of the failing run is the replay, not the re-run
+            small, r2 = rec["case"], rec
         add_violation("oracle", {"property": prop, "what": "the implementation's result differs from what the property prescribes",
-                                 "signature": sig, "case": small, "impl": r2["impl"], "model": r2["model"]})
+                                 "signature": sig, "case": small, "impl": r2["impl"], "model": r2["model"],
+                                 "reproduced_on_rerun": rerun_ok})
     # 6b. model and implementation disagree
     if disagreements:
         rec, d = disagreements[0]
@@ -407,8 +412,11 @@ def run_one(argv):
         elif not any(True for _ in seen_new):
             # harmless drift or a model error: search the neighbourhood for an input on which the property fails
             found = None
+            t_search_end = time.time() + (120 if not thorough else 600)   # bounded search for a property-violating input
             if not a.replay:
                 for extra in range(1, 4 if not thorough else 10):
+                    if time.time() > t_search_end:
+                        break
                     more = []
                     for g in cfg["gens"]:
                         rc, out, err = run([HBIN, "gen", g, "--seed", str(a.seed + 7919 * extra), "--tier", a.tier], env=env, timeout=1200)
